@@ -99,6 +99,9 @@ func (g *G) SingleQuoted() string {
 var dqPlain = []string{"a", "abc", "x", ";", "{", "}", "'", "+", "/* c */", "// c", "é", "日本", "=", "k1", "*/", "/"}
 var dqEsc = []string{"\\n", "\\t", "\\\"", "\\\\"}
 
+// a backslash in front of any other character is ordinary text
+var dqOdd = []string{"\\d", "\\.", "\\x", "\\'", "\\/", "C:\\dir", "\\é"}
+
 // dqBody: a line body that neither starts nor ends with a blank; escapes only between non-blank atoms.
 func (g *G) dqBody() string {
 	n := g.Pick(6, "bodyn")
@@ -115,6 +118,10 @@ func (g *G) dqBody() string {
 			}
 			atoms = append(atoms, "w")
 		case 1, 2:
+			if g.Pick(5, "oddesc") == 0 {
+				atoms = append(atoms, dqOdd[g.Pick(len(dqOdd), "odd")])
+				continue
+			}
 			atoms = append(atoms, dqEsc[g.Pick(len(dqEsc), "esc")])
 		default:
 			atoms = append(atoms, dqPlain[g.Pick(len(dqPlain), "plain")])
@@ -179,6 +186,10 @@ func (g *G) DoubleQuoted() string {
 			tr := []string{"", "", " ", "  ", "\t", " \t"}[g.Pick(6, "trail")]
 			if g.NoTabs {
 				tr = strings.ReplaceAll(tr, "\t", " ")
+			}
+			if body != "" && tr == "" && g.Pick(8, "eolbackslash") == 0 {
+				// the line ends in a backslash (a shell continuation in a description, a Windows path): ordinary text
+				b.WriteString("\\")
 			}
 			b.WriteString(tr)
 			if g.Pick(4, "crlf") == 0 {
